@@ -178,6 +178,27 @@ class RuntimeAssertionFeedback(AssertionFeedback):
             if self.report[TOOL_NAME]['exceptions']:
                 raise AssertionBreak(self)
 
+    def _handle_condition(self):
+        """ An assertion has not been satisfied when one of its operands is an
+        error or when its relation cannot be evaluated for the operands (e.g.,
+        ``1 < "a"``), so both are recorded as a failed assertion instead of
+        leaving the assertion silent. """
+        check_relation = self.condition
+
+        def guarded_condition(*args, **kwargs):
+            if any(isinstance(arg, InterpolatedValue) and arg.is_error for arg in args):
+                return True
+            try:
+                return check_relation(*args, **kwargs)
+            except Exception:
+                return True
+
+        self.condition = guarded_condition
+        try:
+            super()._handle_condition()
+        finally:
+            del self.condition
+
     def get_sandbox_contexts(self, wrapped_values):
         """ Retrieve any sandbox contexts associated with these values. """
         contexts = []
